@@ -193,6 +193,8 @@ class C11(Check):
         for t in gen.TYPES:
             for api in ("append_records", "tx_append_data"):
                 yield {"part": "values", "type": t, "api": api}
+        for t in ("long", "int", "date", "double"):          # field type spelled {"type": t}
+            yield {"part": "values", "type": t, "api": "append_records", "dict_type": True}
         for v in SCHEMA_VARIANTS:
             for sid in SCHEMA_IDS:
                 for handle in ("fresh", "reused"):
@@ -285,9 +287,10 @@ class C11(Check):
         import datashard as ds
 
         t_name = case["type"]
+        tspec: Any = {"type": t_name} if case.get("dict_type") else t_name
         fields = [{"id": 1, "name": "rid", "type": "long", "required": True},
-                  {"id": 2, "name": "x", "type": t_name, "required": False},
-                  {"id": 3, "name": "r", "type": t_name, "required": True}]
+                  {"id": 2, "name": "x", "type": tspec, "required": False},
+                  {"id": 3, "name": "r", "type": tspec, "required": True}]
         good = [v for c, v in values_for(t_name)][0]
         with Scratch("c11") as d:
             root = str(d / "t")
@@ -308,7 +311,7 @@ class C11(Check):
                 rec = dict(rec, rid=rid)
                 before = self._state(root)
                 wit = {"type": t_name, "value_class": cname, "record": repr(rec), "api": case["api"]}
-                sigctx = f"{t_name}:{cname}"
+                sigctx = f"{t_name}{'(dict-typed)' if case.get('dict_type') else ''}:{cname}"
                 res.evals += 1
                 try:
                     self._append(t, case["api"], [rec])
